@@ -1491,7 +1491,7 @@ class Engine:
                 nm = VARS.names[i]
                 if nm.startswith(('sqrt!', 'cos!', 'sin!')):
                     continue
-                for attempt in range(5):
+                for attempt in range(12):
                     if attempt >= 2:
                         val = Fraction(rnd.randint(1, 31), 32)          # (parameters live in small intervals of [0, 1])
                     elif i in VARS.positive:
